@@ -387,6 +387,10 @@ class Interp:
             return self.native(fn, args, kwargs)
         if self.models.opaque_safe(fn):
             return self.native(fn, args, kwargs)
+        if isinstance(fn, (types.BuiltinMethodType, types.MethodWrapperType)) and getattr(fn, "__name__", "") in self._MUTATORS:
+            slf = getattr(fn, "__self__", None)
+            if slf is not None and not isinstance(slf, type):
+                self.note_write(slf, f"{type(slf).__name__}.{fn.__name__}")
         # callable instance with repo __call__?
         call = getattr(type(fn), "__call__", None)
         if is_repo_function(call):
